@@ -302,6 +302,21 @@ def run_psi4(spec, res):
         except Exception as e:
             common.add_violation(res, f"Psi4_lm raises {type(e).__name__}", {"err": repr(e)[:300]})
             return
+        # the real and the imaginary part go through the same interpolation:
+        # the modes of (i * field) are i times the modes of the field
+        if N == spec['nfine'] // 2:
+            relj = harness.make_rel(fd, {'Weyl_Psi4r': (1j * psi4).real.copy(),
+                                         'Weyl_Psi4i': (1j * psi4).imag.copy()},
+                                    lmax=max(l0, 4), center=centre, extract_radii=list(radii),
+                                    interp_method=spec['method'])
+            with common.Quiet():
+                lmj = relj['Psi4_lm']
+            res['observations'] += 1
+            worst = max(abs(lmj[R][k] - 1j * lm[R][k]) for R in radii for k in lm[R])
+            if worst > 1e-9 * abs(A):
+                common.add_violation(res, "Psi4_lm treats the real and the imaginary part differently",
+                                     {"method": spec['method'], "err": float(worst / abs(A))})
+                return
         res['observations'] += 2
         if not all(np.array_equal(a, b) for a, b in zip(
                 axes0, [fd.xarray, fd.yarray, fd.zarray, fd.cartesian_coords])):
